@@ -409,8 +409,40 @@ pub fn gen_lex_case(rng: &mut Rng, i: usize) -> LexCase {
 
 pub enum Outcome<T> {
     Done(T),
-    Panic(String),
+    /// message, `file.rs:line` of the panic
+    Panic(String, String),
     Hang,
+}
+
+thread_local! {
+    /// `file.rs:line` (file name without directories) of the last panic on this thread
+    static LAST_PANIC_LOC: std::cell::RefCell<String> = const { std::cell::RefCell::new(String::new()) };
+}
+
+/// silent panic hook that remembers where the panic happened: the call site identifies the defect
+pub fn install_panic_hook() {
+    std::panic::set_hook(Box::new(|info| {
+        let loc = info
+            .location()
+            .map(|l| {
+                let file = l.file().rsplit(['/', '\\']).next().unwrap_or("?");
+                format!("{}:{}", file, l.line())
+            })
+            .unwrap_or_else(|| "?".to_string());
+        LAST_PANIC_LOC.with(|c| *c.borrow_mut() = loc);
+    }));
+}
+
+fn take_panic_loc() -> String {
+    LAST_PANIC_LOC.with(|c| {
+        let l = c.borrow().clone();
+        if l.is_empty() { "?".to_string() } else { l }
+    })
+}
+
+/// `(panic <hex message> <file.rs:line>)`
+fn s_panic(e: Box<dyn std::any::Any + Send>) -> S {
+    S::kv("panic", [S::str(&panic_msg(e)), S::atom(take_panic_loc())])
 }
 
 fn panic_msg(e: Box<dyn std::any::Any + Send>) -> String {
@@ -421,15 +453,15 @@ fn panic_msg(e: Box<dyn std::any::Any + Send>) -> String {
 pub fn guarded<T: Send + 'static>(secs: u64, f: impl FnOnce() -> T + Send + 'static) -> Outcome<T> {
     let (tx, rx) = mpsc::channel();
     let spawned = std::thread::Builder::new().stack_size(64 << 20).spawn(move || {
-        let r = catch_unwind(AssertUnwindSafe(f));
+        let r = catch_unwind(AssertUnwindSafe(f)).map_err(|e| (panic_msg(e), take_panic_loc()));
         let _ = tx.send(r);
     });
     if spawned.is_err() {
-        return Outcome::Panic("could not spawn worker thread".into());
+        return Outcome::Panic("could not spawn worker thread".into(), "harness".into());
     }
     match rx.recv_timeout(Duration::from_secs(secs)) {
         Ok(Ok(v)) => Outcome::Done(v),
-        Ok(Err(e)) => Outcome::Panic(panic_msg(e)),
+        Ok(Err((m, l))) => Outcome::Panic(m, l),
         Err(_) => Outcome::Hang,
     }
 }
@@ -490,7 +522,7 @@ fn after_parse(tree: &ParseTree, diags: &DiagnosticSet, use_map: bool) -> Vec<S>
         S::k1("msgs", first_msgs(diags)),
     ];
     let fmt = catch_unwind(AssertUnwindSafe(|| diags.display().to_string().len()));
-    f.push(S::k1("fmt", match fmt { Ok(_) => S::atom("ok"), Err(e) => S::kv("panic", [S::str(&panic_msg(e))]) }));
+    f.push(S::k1("fmt", match fmt { Ok(_) => S::atom("ok"), Err(e) => s_panic(e) }));
     // A tree parsed without a glyph map still contains unresolved `GlyphNameOrRange` tokens, which the typed AST
     // (and therefore validation) does not accept: validating such a tree is outside the API contract
     // ("If you are not compiling the parse results, you can omit it"), so it is not attempted.
@@ -504,7 +536,7 @@ fn after_parse(tree: &ParseTree, diags: &DiagnosticSet, use_map: bool) -> Vec<S>
     let v = catch_unwind(AssertUnwindSafe(|| compile::validate::<NopVariationInfo>(tree, gm, None)));
     match v {
         Err(e) => {
-            f.push(S::k1("validate", S::kv("panic", [S::str(&panic_msg(e))])));
+            f.push(S::k1("validate", s_panic(e)));
             f.push(S::k1("vdiags", S::list([])));
             f.push(S::k1("compile", S::atom("skipped")));
         }
@@ -513,7 +545,7 @@ fn after_parse(tree: &ParseTree, diags: &DiagnosticSet, use_map: bool) -> Vec<S>
             f.push(S::k1("vdiags", diag_list(tree, &vd)));
             let vfmt = catch_unwind(AssertUnwindSafe(|| vd.display().to_string().len()));
             if let Err(e) = vfmt {
-                f.push(S::k1("vfmt", S::kv("panic", [S::str(&panic_msg(e))])));
+                f.push(S::k1("vfmt", s_panic(e)));
             }
             if vd.has_errors() {
                 f.push(S::k1("compile", S::atom("skipped")));
@@ -524,7 +556,7 @@ fn after_parse(tree: &ParseTree, diags: &DiagnosticSet, use_map: bool) -> Vec<S>
                 f.push(S::k1("compile", match c {
                     Ok(true) => S::atom("ok"),
                     Ok(false) => S::atom("err"),
-                    Err(e) => S::kv("panic", [S::str(&panic_msg(e))]),
+                    Err(e) => s_panic(e),
                 }));
             }
         }
@@ -553,55 +585,138 @@ pub fn parse_in_memory(text: &str, use_map: bool) -> (ParseTree, DiagnosticSet) 
 
 /// wall-clock limit for one case; a parser that spins (it then also allocates diagnostics without bound) is
 /// reported as `hang`, and the process is replaced (see `run_guarded_cases`) so the spinning thread dies
-const CASE_TIMEOUT_S: u64 = 15;
+const CASE_TIMEOUT_S: u64 = 20;
+
+/// big inputs get more time (a 130 kB corpus file with thousands of diagnostics takes ~1 s idle, but this
+/// runs 16-fold in parallel on a loaded machine): 20 s + 1 s per 1.5 kB
+fn lex_timeout(len: usize) -> u64 {
+    CASE_TIMEOUT_S + (len / 1500) as u64
+}
 
 pub fn lex_impl(src: &str, use_map: bool) -> (S, bool) {
     let s = src.to_string();
-    let out = guarded(CASE_TIMEOUT_S, move || {
+    let out = guarded(lex_timeout(src.len()), move || {
         let (tree, diags) = parse_in_memory(&s, use_map);
         after_parse(&tree, &diags, use_map)
     });
     match out {
         Outcome::Done(f) => (S::kv("impl", [S::k1("status", S::atom("ok"))].into_iter().chain(f)), false),
-        Outcome::Panic(m) => (S::kv("impl", [S::k1("status", S::atom("panic")), S::k1("panicmsg", S::str(&m))]), false),
+        Outcome::Panic(m, l) => (S::kv("impl", [S::k1("status", S::atom("panic")), S::k1("panicmsg", S::str(&m)), S::k1("panicloc", S::atom(l))]), false),
         Outcome::Hang => (S::kv("impl", [S::k1("status", S::atom("hang"))]), true),
     }
 }
 
-/// Like `crate::run_cases`, but a case may report that it left a hung worker thread behind; the rest of the
-/// range is then produced by a fresh process (same binary, same seed) and this one exits.
-fn run_guarded_cases(stream: &str, args: &Args, f: impl Fn(usize) -> (Vec<S>, bool)) {
+/// the running binary itself, also when the file has been replaced by a rebuild in the meantime
+fn self_exe() -> PathBuf {
+    let p = PathBuf::from("/proc/self/exe");
+    if p.exists() { p } else { std::env::current_exe().unwrap() }
+}
+
+/// Does parsing `text` (parse only) fail to finish within `secs`?  Runs in a child process, which is killed.
+fn probe_hangs(text: &str, use_map: bool, secs: u64) -> bool {
     use std::io::Write;
-    std::panic::set_hook(Box::new(|_| {}));
+    use std::process::{Command, Stdio};
+    let mut cmd = Command::new(self_exe());
+    cmd.args(["c13lex", "--probe"]);
+    if use_map {
+        cmd.arg("--map");
+    }
+    let Ok(mut child) = cmd.stdin(Stdio::piped()).stdout(Stdio::null()).stderr(Stdio::null()).spawn() else {
+        return false;
+    };
+    if let Some(mut si) = child.stdin.take() {
+        let _ = si.write_all(text.as_bytes());
+    }
+    let t0 = std::time::Instant::now();
+    loop {
+        match child.try_wait() {
+            Ok(Some(_)) => return false,
+            Ok(None) => {
+                if t0.elapsed() > Duration::from_secs(secs) {
+                    let _ = child.kill();
+                    let _ = child.wait();
+                    return true;
+                }
+                std::thread::sleep(Duration::from_millis(10));
+            }
+            Err(_) => return false,
+        }
+    }
+}
+
+/// Length of the shortest prefix of `src` (on a character boundary) on which the parser still does not finish,
+/// by bisection (the parser reads left to right, so hanging is monotone in the prefix for all practical purposes).
+/// The Lean driver names the hang after the last keyword in front of that point.
+fn hang_prefix(src: &str, use_map: bool) -> usize {
+    let secs = |len: usize| 5 + (len / 3000) as u64;
+    let (mut lo, mut hi) = (0usize, src.len()); // invariant: prefix lo finishes (empty input does), prefix hi hangs
+    while lo < hi {
+        let mut mid = floor_boundary(src, (lo + hi) / 2);
+        if mid <= lo {
+            // next boundary after lo
+            mid = lo + 1;
+            while mid < hi && !src.is_char_boundary(mid) {
+                mid += 1;
+            }
+            if mid >= hi {
+                break;
+            }
+        }
+        if probe_hangs(&src[..mid], use_map, secs(mid)) {
+            hi = mid;
+        } else {
+            lo = mid;
+        }
+    }
+    hi
+}
+
+fn hang_line(src: &str, use_map: bool) -> S {
+    S::kv("impl", [S::k1("status", S::atom("hang")), S::k1("hangprefix", S::usize(hang_prefix(src, use_map)))])
+}
+
+/// Like `crate::run_cases`, but a case may report that it left a hung worker thread behind; the rest of the
+/// range is then produced by a fresh process image (same binary, same seed) that replaces this one.
+fn run_guarded_cases(stream: &str, args: &Args, f: impl Fn(usize, bool) -> (Vec<S>, bool)) {
+    use std::io::Write;
+    install_panic_hook();
     let stdout = std::io::stdout();
     let end = args.from + args.n;
+    // `--hung-first`: this image replaced one whose worker thread got stuck on case `from`
+    let hung_first = args.rest.iter().any(|a| a == "--hung-first");
     for i in args.from..end {
-        let (fields, hung) = f(i);
-        {
-            let mut out = stdout.lock();
-            writeln!(out, "{}", crate::sexp::case_line(stream, i, fields)).unwrap();
-            out.flush().unwrap();
+        let known_hang = hung_first && i == args.from;
+        let (fields, hung) = f(i, known_hang);
+        if hung && !known_hang {
+            // the stuck worker thread keeps spinning (and allocating): replace this process image at once by a
+            // fresh one that reports case `i` as a hang (without running it in-process) and produces the rest
+            // of the range; `exec` only returns on failure
+            use std::os::unix::process::CommandExt;
+            stdout.lock().flush().unwrap();
+            let e = std::process::Command::new(self_exe())
+                .args([stream, "--seed", &args.seed.to_string(), "--from", &i.to_string(), "--n", &(end - i).to_string(), "--hung-first"])
+                .exec();
+            eprintln!("c13: could not start the continuation process: {e}");
+            std::process::exit(1);
         }
-        if hung {
-            let code = if i + 1 < end {
-                std::process::Command::new(std::env::current_exe().unwrap())
-                    .args([stream, "--seed", &args.seed.to_string(), "--from", &(i + 1).to_string(), "--n", &(end - i - 1).to_string()])
-                    .status()
-                    .map(|s| s.code().unwrap_or(1))
-                    .unwrap_or_else(|e| {
-                        eprintln!("c13: could not start the continuation process: {e}");
-                        1
-                    })
-            } else {
-                0
-            };
-            std::process::exit(code);
-        }
+        let mut out = stdout.lock();
+        writeln!(out, "{}", crate::sexp::case_line(stream, i, fields)).unwrap();
+        out.flush().unwrap();
     }
 }
 
 pub fn run_lex(args: &Args) {
     let seed = args.seed;
+    // `--probe [--map]`: parse the text on stdin and exit (used by `probe_hangs`)
+    if args.rest.iter().any(|a| a == "--probe") {
+        use std::io::Read;
+        install_panic_hook();
+        let mut text = String::new();
+        std::io::stdin().read_to_string(&mut text).expect("stdin");
+        let use_map = args.rest.iter().any(|a| a == "--map");
+        let r = catch_unwind(AssertUnwindSafe(|| parse_in_memory(&text, use_map).1.len()));
+        std::process::exit(if r.is_ok() { 0 } else { 3 });
+    }
     // `--text <hex|@file>` : run one given input (for replaying a reported failing input by hand)
     if let Some(pos) = args.rest.iter().position(|a| a == "--text") {
         let arg = &args.rest[pos + 1];
@@ -612,7 +727,9 @@ pub fn run_lex(args: &Args) {
             String::from_utf8(bytes).expect("utf8")
         };
         let use_map = args.rest.iter().any(|a| a == "--map");
+        install_panic_hook();
         let (imp, hung) = lex_impl(&src, use_map);
+        let imp = if hung { hang_line(&src, use_map) } else { imp };
         let f = vec![S::k1("src", S::str(&src)), S::k1("gen", S::atom("given")), S::k1("gm", S::usize(use_map as usize)), imp];
         println!("{}", crate::sexp::case_line("c13lex", 0, f));
         if hung {
@@ -620,10 +737,10 @@ pub fn run_lex(args: &Args) {
         }
         return;
     }
-    run_guarded_cases("c13lex", args, move |i| {
+    run_guarded_cases("c13lex", args, move |i, known_hang| {
         let mut rng = Rng::for_case(seed, "c13lex", i);
         let case = gen_lex_case(&mut rng, i);
-        let (imp, hung) = lex_impl(&case.src, case.use_map);
+        let (imp, hung) = if known_hang { (hang_line(&case.src, case.use_map), true) } else { lex_impl(&case.src, case.use_map) };
         (
             vec![
                 S::k1("src", S::str(&case.src)),
@@ -764,7 +881,7 @@ pub fn inc_impl(case: &IncCase) -> (S, bool) {
     });
     let r = match out {
         Outcome::Done(f) => (S::kv("impl", [S::k1("status", S::atom("ok"))].into_iter().chain(f)), false),
-        Outcome::Panic(m) => (S::kv("impl", [S::k1("status", S::atom("panic")), S::k1("panicmsg", S::str(&m))]), false),
+        Outcome::Panic(m, l) => (S::kv("impl", [S::k1("status", S::atom("panic")), S::k1("panicmsg", S::str(&m)), S::k1("panicloc", S::atom(l))]), false),
         Outcome::Hang => (S::kv("impl", [S::k1("status", S::atom("hang"))]), true),
     };
     let _ = dir.close(); // remove the temp dir (also after a hang: the stuck thread only holds file contents)
@@ -773,7 +890,7 @@ pub fn inc_impl(case: &IncCase) -> (S, bool) {
 
 pub fn run_inc(args: &Args) {
     let seed = args.seed;
-    run_guarded_cases("c13inc", args, move |i| {
+    run_guarded_cases("c13inc", args, move |i, known_hang| {
         let mut rng = Rng::for_case(seed, "c13inc", i);
         let case = gen_inc_case(&mut rng);
         let texts: Vec<String> = (0..case.edges.len()).map(|i| file_text(&case, i)).collect();
@@ -790,7 +907,7 @@ pub fn run_inc(args: &Args) {
             }
             S::list(v)
         });
-        let (imp, hung) = inc_impl(&case);
+        let (imp, hung) = if known_hang { (S::kv("impl", [S::k1("status", S::atom("hang"))]), true) } else { inc_impl(&case) };
         (vec![
             S::k1("shape", S::atom(case.shape)),
             S::k1("n", S::usize(case.edges.len())),
